@@ -35,8 +35,8 @@ from ..engine.normalize import ANCHOR_NAMES, inline_helpers
 from ..engine.report import AnalysisError, Run
 from ..engine.resolver import ClassInfo, FuncInfo, Program, parent_map
 from ..engine.util import canon, node_writes, nodes_with_call, u
-from ._c20_util import (Expander, bind_call, branch, calls_where, const_bool, cpath, enum_paths, equal_fact,
-                        params_of, presence, result_expr, subst_names, walk_own)
+from ._c20_util import (Expander, bind_call, branch, calls_where, const_bool, cpath, enum_paths, equal_fact, expand_at,
+                        params_of, presence, result_expr, splice_value_calls, subst_names, walk_own)
 
 SRC = "microgrid._data_sourcing.microgrid_api_source"
 API = f"{SRC}:MicrogridApiSource"
@@ -88,7 +88,7 @@ def _category_on_path(facts: list[tuple[Any, bool]], var: str) -> set[str]:
     return out
 
 
-def check_tab(run: Run, prog: Program) -> None:
+def check_tab(run: Run, prog: Program, ro: "Roles") -> None:
     mod = prog.module(SRC)
     n = 0
     for tname in TABLES:
@@ -111,7 +111,7 @@ def check_tab(run: Run, prog: Program) -> None:
         raise AnalysisError(f"C20.TAB: only {n} extractor entries found")
     # dispatch agreement: on every path of the lookup that returns, exactly one category is known and
     # the value returned is that category's table indexed by the metric parameter
-    gm = prog.func(f"{API}._get_data_extraction_method")
+    gm = ro.gm
     run.analysed(gm.qual)
     cat_p, metric_p = gm.params[1], gm.params[2]
     disp: dict[str, set[tuple[str, str]]] = {}
@@ -131,14 +131,15 @@ def check_tab(run: Run, prog: Program) -> None:
     run.check(disp == want, "C20.TAB", gm.qual, f"category -> table: { {k: sorted(v) for k, v in sorted(disp.items())} }",
               f"a component category is served from another category's extractor table (expected {want})",
               node=gm.node, file=gm.file)
-    for cat, vname in VALIDATORS.items():
-        fn = prog.func(f"{API}.{vname}")
+    for cat in VALIDATORS:
+        fn = ro.validator(prog, cat)
+        vname = fn.name
         run.analysed(fn.qual)
         # the validator together with the non-anchored private helpers it calls (an extracted
         # "open the receiver" / "validate the metrics" step still belongs to it)
         scope = [fn.node]
         for c in ast.walk(fn.node):
-            if isinstance(c, ast.Call) and _is_self_call(c) and c.func.attr.startswith("_") and c.func.attr not in ANCHOR_NAMES \
+            if isinstance(c, ast.Call) and _is_self_call(c) and c.func.attr.startswith("_") and c.func.attr not in ro.names \
                     and fn.cls is not None:  # type: ignore[union-attr]
                 h = prog.resolve_method(fn.cls, c.func.attr)  # type: ignore[union-attr]
                 if h is not None and all(h.node is not n for n in scope):
@@ -172,7 +173,7 @@ def check_tab(run: Run, prog: Program) -> None:
                   "a validator refuses a request for a metric its category supports (or refuses unconditionally): "
                   "the stream task of that component fails on every start and none of its subscriptions is served",
                   node=fn.node, file=fn.file, path=vcfg.describe_path(wit))
-    cr = prog.func(f"{API}._check_requested_component_and_metrics")
+    cr = ro.cr
     run.analysed(cr.qual)
     d2: dict[str, set[str]] = {}
     for p in enum_paths(cr.node):
@@ -180,20 +181,121 @@ def check_tab(run: Run, prog: Program) -> None:
         if len(cats) > 1:
             continue
         called = {c.func.attr for s in p.stmts for c in ast.walk(s)  # type: ignore[union-attr]
-                  if isinstance(c, ast.Call) and _is_self_call(c) and c.func.attr.startswith("_check_")}  # type: ignore[union-attr]
+                  if isinstance(c, ast.Call) and _is_self_call(c) and (c.func.attr.startswith("_check_")  # type: ignore[union-attr]
+                                                                      or c.func.attr in ro.validators.values())}  # type: ignore[union-attr]
         if called:
             d2.setdefault(next(iter(cats)) if cats else "<no category test>", set()).update(called)
-    want2 = {k: {v} for k, v in VALIDATORS.items()}
+    want2 = {k: {v} for k, v in ro.validators.items()}
     run.check(d2 == want2, "C20.TAB", cr.qual, f"category -> validator: { {k: sorted(v) for k, v in sorted(d2.items())} }",
               "a category is validated by another category's validator", node=cr.node, file=cr.file)
+
+
+# ======================================================================================== who plays which role
+class Roles:
+    """The private functions the rules talk about, found by what they do; their historical names
+    are only the fallback when the role cannot be read off the code (then a missing name is exit 2).
+
+      us   the method add_metric awaits that (itself or through a helper) registers comp_data_tasks[...]
+      hs   the coroutine that the registered task runs (run_forever(lambda: self.<hs>(comp_id, category)))
+      cr   the method hs awaits with this component's subscriptions (validates, opens the receiver)
+      gs   the method whose result hs binds, called with this component's subscriptions (builds the pairs)
+      gm   the method gs calls per item for the extractor
+      validators  category -> the method cr dispatches to
+      lookup      the method whose awaited result add_metric tests against None (component category)
+    """
+
+    def __init__(self, prog: Program) -> None:
+        self.cls = cls = prog.cls(API)
+        self.am = prog.func(f"{API}.add_metric")
+        writers = set()
+        for m in cls.methods.values():
+            x = Expander(m.node)
+            if any(isinstance(n, ast.Subscript) and isinstance(n.ctx, ast.Store) and x.x(n.value) == TASKS for n in ast.walk(m.node)):
+                writers.add(m.name)
+        awaited = [a.value.func.attr for a in walk_own(self.am.node)  # type: ignore[union-attr]
+                   if isinstance(a, ast.Await) and isinstance(a.value, ast.Call) and _is_self_call(a.value)]
+        cand = [n for n in awaited if n in cls.methods and (n in writers or any(
+            isinstance(c, ast.Call) and _is_self_call(c) and c.func.attr in writers  # type: ignore[union-attr]
+            for c in ast.walk(cls.methods[n].node)))]
+        self.us = self._pick(prog, cand, "_update_streams")
+        # hs: what the registered task runs
+        hs_names = []
+        for n in ast.walk(inline_helpers(prog, self.us)):
+            if isinstance(n, ast.Call) and u(n.func) == "run_forever" and n.args:
+                f = n.args[0]
+                inner = f.body if isinstance(f, ast.Lambda) else (f.args[0] if isinstance(f, ast.Call) and f.args and u(f.func).endswith("partial") else None)
+                if isinstance(inner, ast.Call) and _is_self_call(inner):
+                    hs_names.append(inner.func.attr)  # type: ignore[union-attr]
+                elif isinstance(inner, ast.Attribute) and isinstance(inner.value, ast.Name) and inner.value.id == "self":
+                    hs_names.append(inner.attr)
+        self.hs = self._pick(prog, hs_names, "_handle_data_stream")
+        hx = Expander(self.hs.node)
+        subs = f"{SUBS}[{self.hs.params[1]}]" if len(self.hs.params) > 1 else "?"
+        cr_names, gs_names = [], []
+        for n in walk_own(self.hs.node):
+            c = n.value if isinstance(n, (ast.Assign, ast.AnnAssign, ast.Expr)) else None
+            aw = isinstance(c, ast.Await)
+            c = c.value if isinstance(c, ast.Await) else c
+            if isinstance(c, ast.Call) and _is_self_call(c) and any(hx.x(a) == subs for a in [*c.args, *[k.value for k in c.keywords]]):
+                if isinstance(n, ast.Expr) and aw:
+                    cr_names.append(c.func.attr)  # type: ignore[union-attr]
+                elif not isinstance(n, ast.Expr) and not aw:
+                    gs_names.append(c.func.attr)  # type: ignore[union-attr]
+        self.cr = self._pick(prog, cr_names, "_check_requested_component_and_metrics")
+        self.gs = self._pick(prog, gs_names, "_get_metric_senders")
+        # validators: what cr dispatches to per category
+        self.validators: dict[str, str] = {}
+        per_cat: dict[str, set[str]] = {}
+        if len(self.cr.params) > 2:
+            for p in enum_paths(self.cr.node):
+                cats = _category_on_path(p.facts, self.cr.params[2])
+                if len(cats) != 1:
+                    continue
+                for s_ in p.stmts:
+                    if isinstance(s_, ast.Expr) and isinstance(s_.value, ast.Await) and isinstance(s_.value.value, ast.Call) \
+                            and _is_self_call(s_.value.value):
+                        per_cat.setdefault(next(iter(cats)), set()).add(s_.value.value.func.attr)  # type: ignore[union-attr]
+        for cat, hint in VALIDATORS.items():
+            got = sorted(per_cat.get(cat, ()))
+            self.validators[cat] = got[0] if len(got) == 1 and got[0] in cls.methods else hint
+        # gm: the extractor lookup called per item by gs
+        gm_names = []
+        val = result_expr(self.gs.node)
+        if isinstance(val, ast.ListComp) and isinstance(val.elt, ast.Tuple) and val.elt.elts:
+            e0 = val.elt.elts[0]
+            if isinstance(e0, ast.Call) and _is_self_call(e0):
+                gm_names.append(e0.func.attr)  # type: ignore[union-attr]
+        self.gm = self._pick(prog, gm_names, "_get_data_extraction_method")
+        # lookup: awaited, result compared with None in add_metric
+        ax = Expander(self.am.node)
+        look = []
+        for t in walk_own(self.am.node):
+            if isinstance(t, ast.Compare) and len(t.ops) == 1 and isinstance(t.ops[0], (ast.Is, ast.IsNot)) and u(t.comparators[0]) == "None":
+                e = ax.expand(t.left)
+                if isinstance(e, ast.Await) and isinstance(e.value, ast.Call) and _is_self_call(e.value):
+                    look.append(e.value.func.attr)  # type: ignore[union-attr]
+        self.lookup = look[0] if len(set(look)) == 1 else "_get_component_category"
+        self.names = {self.us.name, self.hs.name, self.cr.name, self.gs.name, self.gm.name, self.lookup, *self.validators.values()} | ANCHOR_NAMES
+
+    def _pick(self, prog: Program, cand: list[str], hint: str) -> FuncInfo:
+        uniq = [n for n in dict.fromkeys(cand) if n in self.cls.methods]
+        if hint in uniq or not uniq:
+            return prog.func(f"{API}.{hint}")  # exit 2 only if nobody plays the role and the name is gone too
+        if len(uniq) == 1:
+            return self.cls.methods[uniq[0]]
+        raise AnalysisError(f"C20: several candidates for the role of {hint}: {uniq}")
+
+    def validator(self, prog: Program, cat: str) -> FuncInfo:
+        return prog.func(f"{API}.{self.validators[cat]}")
 
 
 # ======================================================================================== roles of _handle_data_stream
 class Stream:
     """Roles in _handle_data_stream, bound by dataflow."""
 
-    def __init__(self, prog: Program) -> None:
-        self.hs = hs = prog.func(f"{API}._handle_data_stream")
+    def __init__(self, prog: Program, ro: Roles) -> None:
+        self.ro = ro
+        self.hs = hs = ro.hs
         self.x = Expander(hs.node)
         self.comp_p, self.cat_p = hs.params[1], hs.params[2]
         loops = [n for n in walk_own(hs.node) if isinstance(n, ast.AsyncFor)]
@@ -330,8 +432,25 @@ def _subs_stable(cls: ClassInfo) -> bool:
     return True
 
 
-def _metric_senders_ok(gs: FuncInfo) -> bool:
+def _value_helper(prog: Program, fn: FuncInfo, keep: set[str]):  # type: ignore[no-untyped-def]
+    """resolve() for splice_value_calls: non-anchored private methods / module functions of `fn`'s class/module."""
+    def resolve(c: ast.Call) -> tuple[Any, list[str]] | None:
+        if _is_self_call(c) and fn.cls is not None:
+            name = c.func.attr  # type: ignore[union-attr]
+            m = prog.resolve_method(fn.cls, name)
+            if m is not None and name.startswith("_") and not name.startswith("__") and name not in keep:
+                return m.node, m.params[1:]
+        elif isinstance(c.func, ast.Name) and c.func.id.startswith("_") and c.func.id in fn.module.functions and c.func.id not in keep:
+            m = fn.module.functions[c.func.id]
+            return m.node, m.params
+        return None
+    return resolve
+
+
+def _metric_senders_ok(prog: Program, gs: FuncInfo, ro: Roles) -> bool:
     lc = result_expr(gs.node)
+    if lc is not None:
+        lc = splice_value_calls(lc, _value_helper(prog, gs, ro.names))
     cat_p, req_p = gs.params[1], gs.params[2]
     if not isinstance(lc, ast.ListComp) or len(lc.generators) != 1:
         return False
@@ -341,10 +460,11 @@ def _metric_senders_ok(gs: FuncInfo) -> bool:
         return False
     metric, reqs = (e.id for e in g.target.elts)  # type: ignore[union-attr]
     ex_e, snd_e = lc.elt.elts
-    if not (isinstance(ex_e, ast.Call) and _is_self_call(ex_e, "_get_data_extraction_method")):
+    if not (isinstance(ex_e, ast.Call) and _is_self_call(ex_e, ro.gm.name)):
         return False
-    eb = bind_call(ex_e, ["category", "metric"])
-    if eb is None or set(eb) != {"category", "metric"} or u(eb["category"]) != cat_p or u(eb["metric"]) != metric:
+    gp = ro.gm.params[1:3]
+    eb = bind_call(ex_e, gp)
+    if eb is None or len(gp) != 2 or set(eb) != set(gp) or u(eb[gp[0]]) != cat_p or u(eb[gp[1]]) != metric:
         return False
     if not isinstance(snd_e, ast.ListComp) or len(snd_e.generators) != 1:
         return False
@@ -378,9 +498,10 @@ def check_fan(run: Run, prog: Program, st: Stream) -> None:
     tg = [w for w in walk_own(pm_node) if isinstance(w, ast.AsyncWith) and "TaskGroup" in u(w.items[0].context_expr)]
     run.check(len(tg) == 1 and pm_node is not hs.node, "C20.FAN", where.qual, "all sends of one message awaited together (TaskGroup)",
               "the sends of one message are not awaited before the fan-out task ends", node=pm_node, file=hs.file)
-    gs = prog.func(f"{API}._get_metric_senders")
+    ro = st.ro
+    gs = ro.gs
     run.analysed(gs.qual)
-    run.check(_metric_senders_ok(gs), "C20.FAN", gs.qual,
+    run.check(_metric_senders_ok(prog, gs, ro), "C20.FAN", gs.qual,
               "[(extractor(category, metric), [sender(req) for req in reqs]) for metric, reqs in requests.items()]",
               "extractor and senders of a pair do not come from the same (metric, requests) item, or some "
               "request gets no sender", node=gs.node, file=gs.file)
@@ -395,7 +516,7 @@ def check_fan(run: Run, prog: Program, st: Stream) -> None:
             if isinstance(v, ast.List) and not v.elts:
                 continue
             c = st.x.expand(v) if v is not None else None
-            b = bind_call(c, gs.params[1:]) if isinstance(c, ast.Call) and _is_self_call(c, "_get_metric_senders") else None
+            b = bind_call(c, gs.params[1:]) if isinstance(c, ast.Call) and _is_self_call(c, gs.name) else None
             if b is None or set(b) != set(gs.params[1:]) or u(b[gs.params[1]]) != st.cat_p \
                     or u(b[gs.params[2]]) != f"{SUBS}[{st.comp_p}]":
                 ok = False
@@ -411,7 +532,7 @@ def check_fan(run: Run, prog: Program, st: Stream) -> None:
     # ... and they are built whenever the component has subscriptions: the message loop cannot be
     # reached without the build except over the "no subscriptions" side of a membership test
     cfg = st.cfg
-    build = nodes_with_call(cfg, lambda c: _is_self_call(c, "_get_metric_senders"))
+    build = nodes_with_call(cfg, lambda c: _is_self_call(c, gs.name))
     skip_edges: set[tuple[int, str]] = set()
     for t in cfg.nodes:
         if t.kind == "test" and t.ast is not None:
@@ -514,9 +635,9 @@ def check_atom(run: Run, prog: Program, st: Stream) -> None:
               "when the API stream ends, the channels are closed while fan-out tasks of the last messages may not "
               "have sent yet: those messages are lost for every stream", node=hs.node, file=hs.file,
               path=cfg.describe_path(wit))
-    us = prog.func(f"{API}._update_streams")
+    us = st.ro.us
     run.analysed(us.qual)
-    node = inline_helpers(prog, us)
+    node = inline_helpers(prog, us, exclude=st.ro.names)
     x = Expander(node)
     k = us.params[1]
     cancels = calls_where(node, lambda c: isinstance(c.func, ast.Attribute) and c.func.attr == "cancel", nested=True)
@@ -532,7 +653,7 @@ def _guarded(cfg: CFG, x: Expander, targets: list[int], key: str, cont: str, wan
     guards: list[tuple[int, int]] = []
     for t in cfg.nodes:
         if t.kind == "test" and t.ast is not None:
-            p = presence(x.expand(t.ast), key, cont)
+            p = presence(expand_at(cfg, x, t.id, t.ast), key, cont)
             if p is not None:
                 guards.append((t.id, p))
     if not guards or not targets:
@@ -575,7 +696,7 @@ def check_once(run: Run, prog: Program, st: Stream) -> None:
                     node = [n.id for n in cfg.nodes if n.ast is s]
                     ok, wit, n_g = _guarded(cfg, x, node, key, RECV, want_present=False)
                     if not ok and n_g == 0 and isinstance(t.slice, ast.Name) and t.slice.id in m.params[1:] \
-                            and m.name.startswith("_") and m.name not in ANCHOR_NAMES:
+                            and m.name.startswith("_") and m.name not in st.ro.names:
                         # an extracted "open the receiver" helper: the guard may sit at its call sites
                         sites = _self_callers(cls, m.name)
                         refs = [a for mm in cls.methods.values() for a in ast.walk(mm.node)
@@ -611,8 +732,9 @@ def check_once(run: Run, prog: Program, st: Stream) -> None:
                               "that steals messages)", node=c, file=m.file)
     if n_w < 1:
         raise AnalysisError("C20.ONCE: no receiver creation found")
-    for cat, vname in VALIDATORS.items():
-        v = prog.func(f"{API}.{vname}")
+    for cat in VALIDATORS:
+        v = st.ro.validator(prog, cat)
+        vname = v.name
         reaches = vname in writers_of_recv or any(
             _is_self_call(c) and c.func.attr in writers_of_recv for c in ast.walk(v.node) if isinstance(c, ast.Call))  # type: ignore[union-attr]
         run.check(reaches, "C20.ONCE", v.qual, f"{vname}: registers the receiver it opens",
@@ -621,8 +743,8 @@ def check_once(run: Run, prog: Program, st: Stream) -> None:
                   node=v.node, file=v.file,
                   instance=f"{v.qual} :: registers the receiver it opens (create-once checked at the write)")
     # stream tasks: registered only by _update_streams (or a helper spliced into it)
-    us = prog.func(f"{API}._update_streams")
-    us_node = inline_helpers(prog, us)
+    us = st.ro.us
+    us_node = inline_helpers(prog, us, exclude=st.ro.names)
     writers = []
     for m in cls.methods.values():
         x = Expander(m.node)
@@ -633,13 +755,13 @@ def check_once(run: Run, prog: Program, st: Stream) -> None:
                     writers.append((m.name, s))
     ok = bool(writers)
     for name, _s in writers:
-        if name == "_update_streams":
+        if name == us.name:
             continue
         sites = _self_callers(cls, name)
-        spliced = name not in ANCHOR_NAMES and bool(sites) and all(c.name == "_update_streams" for c, _ in sites) \
+        spliced = name not in st.ro.names and bool(sites) and all(c.name == us.name for c, _ in sites) \
             and not any(isinstance(c, ast.Call) and _is_self_call(c, name) for c in ast.walk(us_node))
         ok = ok and spliced
-    run.check(ok, "C20.ONCE", f"{API}._update_streams", "comp_data_tasks[comp_id] written only in _update_streams",
+    run.check(ok, "C20.ONCE", us.qual, "comp_data_tasks[comp_id] written only in _update_streams",
               "stream tasks are registered elsewhere", node=writers[0][1] if writers else None,
               file=prog.module(SRC).rel)
     cfg = CFG(us_node, us.file)
@@ -678,24 +800,24 @@ def check_once(run: Run, prog: Program, st: Stream) -> None:
                     inner = f.body
                 elif isinstance(f, ast.Call) and u(f.func) in ("partial", "functools.partial") and f.args:
                     inner = ast.Call(func=f.args[0], args=f.args[1:], keywords=f.keywords)
-                if inner is not None and _is_self_call(inner, "_handle_data_stream"):
+                if inner is not None and _is_self_call(inner, st.hs.name):
                     b = bind_call(inner, st.hs.params[1:])
                     ok = b is not None and set(b) == set(st.hs.params[1:]) and u(b[st.comp_p]) == k and u(b[st.cat_p]) == cat_p
     run.check(ok, "C20.ONCE", us.qual, "new task = run_forever(_handle_data_stream(comp_id, category))",
               "the registered task does not stream this component", node=us.node, file=us.file)
-    cr = prog.func(f"{API}._check_requested_component_and_metrics")
+    cr = st.ro.cr
     cfg = CFG(cr.node, cr.file)
     x = Expander(cr.node)
-    openers = nodes_with_call(cfg, lambda c: _is_self_call(c) and c.func.attr in VALIDATORS.values())  # type: ignore[union-attr]
+    openers = nodes_with_call(cfg, lambda c: _is_self_call(c) and c.func.attr in st.ro.validators.values())  # type: ignore[union-attr]
     ok = bool(openers) and _guarded(cfg, x, openers, cr.params[1], RECV, want_present=False)[0]
     run.check(ok, "C20.ONCE", cr.qual, "existing receiver -> nothing to (re)create",
               "validation re-runs receiver creation for a component that already has one", node=cr.node, file=cr.file)
     hs = st.hs
     hcfg = st.cfg
-    build = nodes_with_call(hcfg, lambda c: _is_self_call(c, "_get_metric_senders"))
+    build = nodes_with_call(hcfg, lambda c: _is_self_call(c, st.ro.gs.name))
 
     def ensures(c: ast.Call) -> bool:
-        if not _is_self_call(c, "_check_requested_component_and_metrics"):
+        if not _is_self_call(c, cr.name):
             return False
         b = bind_call(c, cr.params[1:])
         return b is not None and set(b) == set(cr.params[1:]) and st.x.x(b[cr.params[1]]) == st.comp_p \
@@ -742,6 +864,8 @@ def _stream_task_frames(prog: Program, st: Stream) -> list[FuncInfo]:
                 tgt = FuncInfo(c.func.id, top.module, nested[c.func.id], None, top)
             elif _is_self_call(c) and top.cls is not None:
                 tgt = prog.resolve_method(top.cls, c.func.attr)  # type: ignore[union-attr]
+            elif isinstance(c.func, ast.Name) and c.func.id in top.module.functions:
+                tgt = top.module.functions[c.func.id]
             if tgt is not None and id(tgt.node) not in fan and all(tgt.node is not f.node for f in frames):
                 frames.append(tgt)
     return frames
@@ -936,9 +1060,9 @@ def _find_scans(cfg: CFG, x: Expander, req: str, helpers: tuple[Program, FuncInf
     return out
 
 
-def _spliced(prog: Program, fn: FuncInfo) -> FuncInfo:
+def _spliced(prog: Program, fn: FuncInfo, ro: Roles) -> FuncInfo:
     """The function with its simple private helpers spliced in (engine normaliser; analysis-only copy)."""
-    node = inline_helpers(prog, fn, exclude=("_get_component_category",))
+    node = inline_helpers(prog, fn, exclude=ro.names)
     return FuncInfo(fn.name, fn.module, node, fn.cls, fn.outer)
 
 
@@ -946,8 +1070,8 @@ def _rooted_at_self(text: str) -> bool:
     return text == "self" or text.startswith("self.") or text.startswith("self[")
 
 
-def check_dedup(run: Run, prog: Program) -> None:
-    am = _spliced(prog, prog.func(f"{API}.add_metric"))
+def check_dedup(run: Run, prog: Program, ro: Roles) -> None:
+    am = _spliced(prog, ro.am, ro)
     run.analysed(am.qual)
     cfg = CFG(am.node, am.file)
     x = Expander(am.node)
@@ -959,7 +1083,7 @@ def check_dedup(run: Run, prog: Program) -> None:
             c = canon(x.expand(t.ast))
             if isinstance(c, tuple) and c[0] in ("is", "isnot") and isinstance(c[1], frozenset) and "None" in c[1] and len(c[1]) == 2:
                 other = next(iter(c[1] - {"None"}))
-                if other.startswith("await self._get_component_category("):
+                if other.startswith(f"await self.{ro.lookup}("):
                     unk.append((t.id, "true" if c[0] == "is" else "false"))
 
     def mutates(nid: int) -> bool:
@@ -969,7 +1093,7 @@ def check_dedup(run: Run, prog: Program) -> None:
         for part in own_parts(n):
             for c in [part, *walk_own(part)]:
                 if isinstance(c, ast.Call) and isinstance(c.func, ast.Attribute):
-                    if _is_self_call(c) and c.func.attr != "_get_component_category":
+                    if _is_self_call(c) and c.func.attr != ro.lookup:
                         return True
                     if c.func.attr in MUTATORS and _rooted_at_self(x.x(c.func.value)):
                         return True
@@ -981,7 +1105,7 @@ def check_dedup(run: Run, prog: Program) -> None:
     run.check(ok, "C20.DEDUP", am.qual, "unknown component -> return before any state change",
               "a request for an unknown component changes the subscription state", node=am.node, file=am.file)
     apps = nodes_with_call(cfg, lambda c: isinstance(c.func, ast.Attribute) and c.func.attr == "append")
-    upd = [n for n in nodes_with_call(cfg, lambda c: _is_self_call(c, "_update_streams")) if cfg.is_await(n)]
+    upd = [n for n in nodes_with_call(cfg, lambda c: _is_self_call(c, ro.us.name)) if cfg.is_await(n)]
     scans = _find_scans(cfg, x, req, helpers=(prog, am))
     ok = len(apps) == 1 and len(upd) == 1 and len(scans) == 1
     wit = None
@@ -1018,7 +1142,7 @@ def check_dedup(run: Run, prog: Program) -> None:
               "the per-component / per-metric request list is not ensured before the duplicate scan: the first "
               "request for a component or metric fails (KeyError) and its stream never starts",
               node=am.node, file=am.file)
-    sub = _spliced(prog, prog.func("microgrid._resampling:ComponentMetricsResamplingActor._subscribe"))
+    sub = _spliced(prog, prog.func("microgrid._resampling:ComponentMetricsResamplingActor._subscribe"), ro)
     run.analysed(sub.qual)
     cfg = CFG(sub.node, sub.file)
     x = Expander(sub.node)
@@ -1037,7 +1161,7 @@ def check_dedup(run: Run, prog: Program) -> None:
     run.check(ok, "C20.DEDUP", sub.qual, "test-and-insert of the request channel name without an await",
               "the resampling actor can subscribe the same request twice (await between test and insert)",
               node=sub.node, file=sub.file)
-    gc = _spliced(prog, prog.func("_internal._channels:ChannelRegistry.get_or_create"))
+    gc = _spliced(prog, prog.func("_internal._channels:ChannelRegistry.get_or_create"), ro)
     run.analysed(gc.qual)
     cfg = CFG(gc.node, gc.file)
     x = Expander(gc.node)
@@ -1055,11 +1179,19 @@ def check_dedup(run: Run, prog: Program) -> None:
     # an existing channel of the requested type is handed out (never refused, never another object):
     # every raising path knows the types differ, every returning path returns the stored channel
     mt = gc.params[1]
-    same = frozenset({f"self._channels[{kp}].message_type", mt})
-    stored = f"self._channels[{kp}].channel"
     ok, why = True, ""
     for p in enum_paths(gc.node):
-        differ = any((c == ("is", same) and not truth) or (c == ("isnot", same) and truth) for c, truth in p.facts)
+        # what denotes the entry of `key` on this path: the slot itself, or the value stored into it
+        entries = {f"self._channels[{kp}]", f"self._channels.get({kp})"}
+        for st_ in p.stmts:
+            if isinstance(st_, (ast.Assign, ast.AnnAssign)) and st_.value is not None:
+                for t in (st_.targets if isinstance(st_, ast.Assign) else [st_.target]):
+                    if isinstance(t, ast.Subscript) and u(t) == f"self._channels[{kp}]":
+                        entries.add(u(st_.value))
+        sames = [frozenset({f"{e}.message_type", mt}) for e in entries]
+        stored_ok = {f"{e}.channel" for e in entries}
+        stored = f"self._channels[{kp}].channel"
+        differ = any((c == ("is", sm) and not truth) or (c == ("isnot", sm) and truth) for c, truth in p.facts for sm in sames)
         if p.kind == "raise" and not differ:
             ok, why = False, "a path raises although the stored message type is the requested one"
         elif p.kind == "fall":
@@ -1068,7 +1200,7 @@ def check_dedup(run: Run, prog: Program) -> None:
             v = p.value
             if isinstance(v, ast.Call) and u(v.func) in ("typing.cast", "cast") and len(v.args) == 2:
                 v = v.args[1]
-            if v is None or u(v) != stored:
+            if v is None or u(v) not in stored_ok:
                 ok, why = False, f"a path returns `{u(v)}` instead of `{stored}`"
     run.check(ok, "C20.DEDUP", gc.qual, "an existing channel of the requested type is returned",
               "get_or_create refuses or replaces the channel of an existing key although the message type matches: "
@@ -1086,8 +1218,9 @@ def check_dedup(run: Run, prog: Program) -> None:
         aw = parents.get(c)
         stmt = parents.get(aw) if aw is not None else None
         ok = isinstance(aw, ast.Await) and isinstance(stmt, ast.Expr) and any(stmt is s for s in loops[0].body) \
-            and x.x(c.func.value) == "self._microgrid_api_source" and [x.x(a) for a in c.args] == [loops[0].target.id] \
-            and not c.keywords and not loops[0].orelse and not any(  # type: ignore[union-attr]
+            and x.x(c.func.value) == "self._microgrid_api_source" \
+            and [x.x(a) for a in (bind_call(c, am.params[1:]) or {}).values()] == [loops[0].target.id] \
+            and not loops[0].orelse and not any(  # type: ignore[union-attr]
                 isinstance(n, (ast.If, ast.Break, ast.Continue, ast.Return, ast.Try, ast.While, ast.For, ast.AsyncFor, ast.IfExp,
                                ast.Match, ast.With, ast.AsyncWith)) for b in loops[0].body for n in [b, *walk_own(b)])
     run.check(ok, "C20.DEDUP", ds.qual, "requests handled one at a time, in order",
@@ -1143,12 +1276,13 @@ CONTROLS = [
 
 
 def run_rules(run: Run, prog: Program) -> None:
-    check_tab(run, prog)
-    st = Stream(prog)
+    ro = Roles(prog)
+    check_tab(run, prog, ro)
+    st = Stream(prog, ro)
     check_fan(run, prog, st)
     check_atom(run, prog, st)
     check_once(run, prog, st)
-    check_dedup(run, prog)
+    check_dedup(run, prog, ro)
 
 
 def check(run: Run, prog: Program, tier: str) -> str:
